@@ -3,6 +3,7 @@
   Theorems about `SpVerif.Model.Conflicts` (mirrors ConflictResolver, conflicts.py:65-315).
 -/
 import SpVerif.Model.Conflicts
+import SpVerif.Model.BoolFlag
 namespace SpVerif.C03
 open SpVerif
 
@@ -83,9 +84,13 @@ theorem resolveLoop_ok_no_conflict (cfg : Cfg) (mode : CR) (fuel : Nat) (recs re
         · cases h
         · exact ih r2 h
 
-/-- **C03 (unique owner).** Whenever setup's conflict resolution returns — in any mode, for any
-    forest, with or without user prefixes, after any number of rounds — every option string belongs
-    to at most one field wrapper, i.e. to exactly one field of exactly one destination. -/
+/-- **C03 (unique owner).** Whenever setup's conflict resolution returns — NONE, EXPLICIT or AUTO
+    (under `always_merge` this loop only returns when there was no conflict at all, see
+    `c03_merge_never_ok`; merging is C11's), for any forest, with or without user prefixes, after any
+    number of rounds — every string belongs to at most one field wrapper. For the strings the parser
+    actually offers the count is exactly one: `c03_exactly_one`, and the owner is the generating
+    field: `c03_owner_eq`. That resolution does return `.ok` on forests with real clashes is shown by
+    the `decide` examples at the end of the file and by `fixAuto_progress`. -/
 theorem c03_unique (cfg : Cfg) (mode : CR) (recs recs' : List FieldRec)
     (h : resolve cfg mode recs = .ok recs') (s : Str) : (owners cfg recs' s).length ≤ 1 :=
   unique_of_no_conflict cfg recs' (resolveLoop_ok_no_conflict cfg mode _ recs recs' h) s
@@ -210,8 +215,11 @@ theorem fixStep_strip (cfg : Cfg) (mode : CR) (recs recs' : List FieldRec) (s : 
 
 /-- **C03 (frame).** Resolution never adds, drops, reorders or retargets a field: names,
     destinations (`parentDest`), nesting levels and aliases of the flat field list are unchanged —
-    only prefixes move. Hence an option string of the i-th field still stores into the i-th
-    field's own destination. -/
+    only prefixes move. So the i-th field wrapper after resolution still describes the i-th leaf
+    (same `dest`). This is a statement about the wrapper list only; what *parsing* an option string
+    does ("changes that leaf and nothing else") is not stated in Lean for C03 — together with
+    `c03_owner_eq` (the lookup table sends a string to the single field that generated it) it is
+    observed on the real parser, one parse per option string (oracle clause `exact-leaf`). -/
 theorem c03_frame (cfg : Cfg) (mode : CR) (recs recs' : List FieldRec)
     (h : resolve cfg mode recs = .ok recs') : recs'.map strip = recs.map strip := by
   unfold resolve at h
@@ -492,7 +500,1057 @@ theorem c03_setup_total_witness : ¬ SetupTotal := by
   rw [hs] at this
   rcases this with ⟨r, hr⟩ | hr <;> cases hr
 
-/-! non-vacuity: a forest with a real clash that AUTO resolves, and one that NONE rejects -/
+/-! ### exactly one owner; the owner of an option string is the field that generated it -/
+
+theorem owner_of_mem_opts (cfg : Cfg) (recs : List FieldRec) (i : Nat) (r : FieldRec) (s : Str)
+    (hi : recs[i]? = some r) (hs : s ∈ r.opts cfg) : i ∈ owners cfg recs s := by
+  have hlt : i < recs.length := by
+    rcases Nat.lt_or_ge i recs.length with h | h
+    · exact h
+    · rw [List.getElem?_eq_none h] at hi; cases hi
+  unfold owners
+  simp only [List.mem_filter, List.mem_range]
+  exact ⟨hlt, by rw [hi]; simpa using hs⟩
+
+theorem mem_owners (cfg : Cfg) (recs : List FieldRec) (i : Nat) (s : Str)
+    (hi : i ∈ owners cfg recs s) : ∃ r, recs[i]? = some r ∧ s ∈ r.opts cfg := by
+  unfold owners at hi
+  simp only [List.mem_filter, List.mem_range] at hi
+  obtain ⟨hlt, hc⟩ := hi
+  have hget : recs[i]? = some recs[i] := List.getElem?_eq_getElem hlt
+  rw [hget] at hc
+  exact ⟨recs[i], hget, by simpa using hc⟩
+
+theorem owners_lt (cfg : Cfg) (recs : List FieldRec) (s : Str) (i : Nat)
+    (hi : i ∈ owners cfg recs s) : i < recs.length := by
+  unfold owners at hi
+  simp only [List.mem_filter, List.mem_range] at hi
+  exact hi.1
+
+theorem owners_nodup (cfg : Cfg) (recs : List FieldRec) (s : Str) : (owners cfg recs s).Nodup := by
+  unfold owners
+  exact List.Nodup.sublist List.filter_sublist List.nodup_range
+
+/-- an option string that appears at all has an owner -/
+theorem owners_ne_nil_of_mem_allOpts (cfg : Cfg) (recs : List FieldRec) (s : Str)
+    (hs : s ∈ allOpts cfg recs) : owners cfg recs s ≠ [] := by
+  unfold allOpts at hs
+  simp only [List.mem_flatMap] at hs
+  obtain ⟨r, hr, hsr⟩ := hs
+  obtain ⟨i, hi⟩ := List.mem_iff_getElem?.mp hr
+  intro hnil
+  have := owner_of_mem_opts cfg recs i r s hi hsr
+  rw [hnil] at this
+  cases this
+
+/-- **C03 (exactly one).** After a successful resolution (NONE / EXPLICIT / AUTO; `always_merge`
+    never reaches `.ok` through this loop — see `c03_merge_never_ok`) every option string that the
+    parser offers has *exactly* one owner. -/
+theorem c03_exactly_one (cfg : Cfg) (mode : CR) (recs recs' : List FieldRec)
+    (h : resolve cfg mode recs = .ok recs') (s : Str) (hs : s ∈ allOpts cfg recs') :
+    (owners cfg recs' s).length = 1 := by
+  have h1 := c03_unique cfg mode recs recs' h s
+  have h2 := owners_ne_nil_of_mem_allOpts cfg recs' s hs
+  match ho : owners cfg recs' s, h1, h2 with
+  | [], _, h2 => exact absurd rfl h2
+  | [_], _, _ => rfl
+  | _ :: _ :: _, h1, _ => simp at h1
+
+/-- **C03 (the owner is the generating field).** If the i-th field generates `s` after resolution,
+    the table of owners of `s` is exactly `[i]`: looking `s` up reaches the i-th field and no
+    other one. (That argparse's exact-match lookup stores into that action's own `dest`, i.e.
+    "passing it changes that leaf and nothing else", is observed on the real parser by the probe
+    parses of the harness — clause `exact-leaf` — and is not restated here.) -/
+theorem c03_owner_eq (cfg : Cfg) (mode : CR) (recs recs' : List FieldRec)
+    (h : resolve cfg mode recs = .ok recs') (i : Nat) (ri : FieldRec) (s : Str)
+    (hi : recs'[i]? = some ri) (hs : s ∈ ri.opts cfg) : owners cfg recs' s = [i] := by
+  have h1 := c03_unique cfg mode recs recs' h s
+  have hm := owner_of_mem_opts cfg recs' i ri s hi hs
+  match ho : owners cfg recs' s, h1, hm with
+  | [], _, hm => cases hm
+  | [a], _, hm => simp only [List.mem_singleton] at hm; rw [hm]
+  | _ :: _ :: _, h1, _ => simp at h1
+
+/-- the loop of `Model/Conflicts` answers `.ok` under `always_merge` only when there was no
+    conflict to begin with (merging is modelled in `Model/Merge`, property C11) -/
+theorem c03_merge_never_ok (cfg : Cfg) (recs recs' : List FieldRec)
+    (h : resolve cfg .always_merge recs = .ok recs') : recs' = recs ∧ getConflict cfg recs = none := by
+  unfold resolve maxAttempts at h
+  rw [resolveLoop] at h
+  cases hc : getConflict cfg recs with
+  | none => rw [hc] at h; simp only [CROut.ok.injEq] at h; exact ⟨h.symm, rfl⟩
+  | some c => obtain ⟨s, os⟩ := c; rw [hc] at h; simp [fixStep] at h
+
+/-! ### invariants travel through the loop -/
+
+/-- any property of the field list that one successful round preserves holds at the exit -/
+theorem resolveLoop_inv (cfg : Cfg) (mode : CR) (P : List FieldRec → Prop)
+    (hstep : ∀ recs s os recs', P recs → getConflict cfg recs = some (s, os) →
+      fixStep cfg mode recs s os = .ok recs' → P recs')
+    (fuel : Nat) (recs recs' : List FieldRec) (h0 : P recs)
+    (h : resolveLoop cfg mode fuel recs = .ok recs') : P recs' := by
+  induction fuel generalizing recs with
+  | zero => simp [resolveLoop] at h
+  | succ n ih =>
+    simp only [resolveLoop] at h
+    cases hc : getConflict cfg recs with
+    | none => rw [hc] at h; simp only [CROut.ok.injEq] at h; subst h; exact h0
+    | some c =>
+      obtain ⟨s, os⟩ := c
+      rw [hc] at h
+      simp only at h
+      cases hf : fixStep cfg mode recs s os with
+      | error e => rw [hf] at h; cases h
+      | ok r2 =>
+        rw [hf] at h
+        simp only at h
+        split at h
+        · cases h
+        · exact ih r2 (hstep recs s os r2 h0 hc hf) h
+
+theorem setPref_get (recs : List FieldRec) (i j : Nat) (p : Str) :
+    (setPref recs i p)[j]? =
+      if i = j then (recs[j]?).map (fun r => { r with pref := p }) else recs[j]? := by
+  unfold setPref
+  rw [List.getElem?_modify]
+  by_cases h : i = j
+  · subst h; cases recs[i]? <;> simp
+  · cases recs[j]? <;> simp [h]
+
+theorem mem_setPref (recs : List FieldRec) (i : Nat) (p : Str) (r : FieldRec)
+    (h : r ∈ setPref recs i p) :
+    r ∈ recs ∨ ∃ r0, recs[i]? = some r0 ∧ r = { r0 with pref := p } := by
+  obtain ⟨j, hj⟩ := List.mem_iff_getElem?.mp h
+  rw [setPref_get] at hj
+  by_cases hij : i = j
+  · subst hij
+    simp only [if_true] at hj
+    cases hr : recs[i]? with
+    | none => rw [hr] at hj; cases hj
+    | some r0 =>
+      rw [hr] at hj
+      simp only [Option.map_some, Option.some.injEq] at hj
+      exact .inr ⟨r0, rfl, hj.symm⟩
+  · simp only [hij, if_false] at hj
+    exact .inl (List.mem_iff_getElem?.mpr ⟨j, hj⟩)
+
+/-- what a successful `autoOne` did: nothing (index out of range) or it put one more word of the
+    parent destination in front of the i-th prefix -/
+theorem autoOne_ok_spec (recs recs' : List FieldRec) (i : Nat) (h : autoOne recs i = .ok recs') :
+    (recs[i]? = none ∧ recs' = recs) ∨
+    ∃ r w, recs[i]? = some r ∧ r.pref ≠ r.parentDest ++ ['.'] ∧
+      (words (r.parentDest ++ ['.'])).length > (words r.pref).length ∧
+      (words (r.parentDest ++ ['.']))[(words (r.parentDest ++ ['.'])).length - 1 -
+        (words r.pref).length]? = some w ∧
+      recs' = setPref recs i (w ++ '.' :: r.pref) := by
+  unfold autoOne at h
+  split at h
+  · rename_i hn
+    simp only [Except.ok.injEq] at h
+    exact .inl ⟨hn, h.symm⟩
+  · rename_i r hr
+    simp only at h
+    split at h
+    · cases h
+    · rename_i hne
+      split at h
+      · rename_i hlt
+        split at h
+        · rename_i w hw
+          simp only [Except.ok.injEq] at h
+          exact .inr ⟨r, w, hr, hne, hlt, hw, h.symm⟩
+        · cases h
+      · cases h
+
+/-! ### progress: a successful AUTO round makes prefixes strictly longer -/
+
+/-- **C03 (progress, one wrapper).** A successful `autoOne` on an existing field makes that
+    field's prefix strictly longer (one more word and a dot in front of the old prefix). -/
+theorem autoOne_progress (recs recs' : List FieldRec) (i : Nat) (r : FieldRec)
+    (hi : recs[i]? = some r) (h : autoOne recs i = .ok recs') :
+    ∃ r' w, recs'[i]? = some r' ∧ r'.pref = w ++ '.' :: r.pref ∧ r'.pref.length > r.pref.length ∧
+      strip r' = strip r := by
+  rcases autoOne_ok_spec recs recs' i h with ⟨hn, _⟩ | ⟨r0, w, hr0, _, _, _, he⟩
+  · rw [hn] at hi; cases hi
+  · rw [hi] at hr0
+    simp only [Option.some.injEq] at hr0
+    subst hr0
+    subst he
+    refine ⟨{ r with pref := w ++ '.' :: r.pref }, w, ?_, rfl, ?_, rfl⟩
+    · rw [setPref_get, hi]; simp
+    · simp only [List.length_append, List.length_cons]; omega
+
+/-- total length of all prefixes: the measure that AUTO rounds increase -/
+def prefSum (recs : List FieldRec) : Nat := (recs.map (fun r => r.pref.length)).sum
+
+theorem prefSum_setPref (recs : List FieldRec) (i : Nat) (r : FieldRec) (p : Str)
+    (hi : recs[i]? = some r) : prefSum (setPref recs i p) + r.pref.length = prefSum recs + p.length := by
+  unfold setPref prefSum
+  induction recs generalizing i with
+  | nil => simp at hi
+  | cons a as ih =>
+    cases i with
+    | zero =>
+      simp only [List.getElem?_cons_zero, Option.some.injEq] at hi
+      subst hi
+      simp only [List.modify_zero_cons, List.map_cons, List.sum_cons]
+      omega
+    | succ n =>
+      simp only [List.getElem?_cons_succ] at hi
+      have := ih n hi
+      simp only [List.modify_succ_cons, List.map_cons, List.sum_cons]
+      omega
+
+theorem autoOne_length (recs recs' : List FieldRec) (i : Nat) (h : autoOne recs i = .ok recs') :
+    recs'.length = recs.length := by
+  have := congrArg List.length (autoOne_strip recs recs' i h)
+  simpa using this
+
+theorem autoOne_measure (recs recs' : List FieldRec) (i : Nat) (h : autoOne recs i = .ok recs') :
+    prefSum recs ≤ prefSum recs' ∧ (i < recs.length → prefSum recs < prefSum recs') := by
+  rcases autoOne_ok_spec recs recs' i h with ⟨hn, he⟩ | ⟨r, w, hr, _, _, _, he⟩
+  · subst he
+    refine ⟨Nat.le_refl _, fun hlt => ?_⟩
+    rw [List.getElem?_eq_getElem hlt] at hn; cases hn
+  · subst he
+    have := prefSum_setPref recs i r (w ++ '.' :: r.pref) hr
+    simp only [List.length_append, List.length_cons] at this
+    constructor
+    · omega
+    · intro _; omega
+
+theorem autoAll_measure (recs recs' : List FieldRec) (is : List Nat) (h : autoAll recs is = .ok recs') :
+    prefSum recs ≤ prefSum recs' ∧ ((∃ i ∈ is, i < recs.length) → prefSum recs < prefSum recs') := by
+  induction is generalizing recs with
+  | nil =>
+    simp only [autoAll, Except.ok.injEq] at h
+    subst h
+    exact ⟨Nat.le_refl _, fun ⟨_, hm, _⟩ => by cases hm⟩
+  | cons i is ih =>
+    simp only [autoAll] at h
+    cases h1 : autoOne recs i with
+    | error e => rw [h1] at h; cases h
+    | ok r1 =>
+      rw [h1] at h
+      obtain ⟨hle1, hlt1⟩ := autoOne_measure recs r1 i h1
+      obtain ⟨hle2, hlt2⟩ := ih r1 h
+      have hlen := autoOne_length recs r1 i h1
+      refine ⟨Nat.le_trans hle1 hle2, ?_⟩
+      rintro ⟨j, hj, hjlt⟩
+      simp only [List.mem_cons] at hj
+      rcases hj with rfl | hj
+      · exact Nat.lt_of_lt_of_le (hlt1 hjlt) hle2
+      · exact Nat.lt_of_le_of_lt hle1 (hlt2 ⟨j, hj, by rw [hlen]; exact hjlt⟩)
+
+/-- **C03 (progress, one AUTO fix).** `_fix_conflict_auto` on owners that exist either raises or
+    strictly increases the total prefix length: a round never returns the forest unchanged, so the
+    loop cannot spin on the same conflict. -/
+theorem fixAuto_progress (recs recs' : List FieldRec) (os : List Nat)
+    (hvalid : ∀ i ∈ os, i < recs.length) (h : fixAuto recs os = .ok recs') :
+    prefSum recs < prefSum recs' := by
+  unfold fixAuto at h
+  simp only at h
+  split at h
+  · cases h
+  · rename_i hlen
+    apply (autoAll_measure _ _ _ h).2
+    have hmem : ∀ x ∈ sortByLevel recs os, x < recs.length :=
+      fun x hx => hvalid x ((mem_sortByLevel recs os x).mp hx)
+    generalize sortByLevel recs os = sorted at hlen hmem ⊢
+    match sorted, hlen, hmem with
+    | [], hlen, _ => simp at hlen
+    | [_], hlen, _ => simp at hlen
+    | a :: b :: rest, _, hmem =>
+      simp only
+      split
+      · exact ⟨b, by simp, hmem b (by simp)⟩
+      · exact ⟨a, by simp, hmem a (by simp)⟩
+
+/-- **C03 (progress, one round of the loop under AUTO).** -/
+theorem c03_auto_round_progress (cfg : Cfg) (recs recs' : List FieldRec) (s : Str) (os : List Nat)
+    (hc : getConflict cfg recs = some (s, os)) (h : fixStep cfg .auto recs s os = .ok recs') :
+    prefSum recs < prefSum recs' := by
+  obtain ⟨hos, _⟩ := getConflict_some_owners cfg recs s os hc
+  subst hos
+  exact fixAuto_progress recs recs' _ (fun i hi => owners_lt cfg recs s i hi) (by simpa [fixStep] using h)
+
+/-! ### generated prefixes are dotted suffixes of the parent destination -/
+
+theorem splitOnChar_ne_nil (sep : Char) (s : Str) : splitOnChar sep s ≠ [] := by
+  cases s with
+  | nil => simp [splitOnChar]
+  | cons c cs =>
+    simp only [splitOnChar]
+    split
+    · simp
+    · split <;> simp
+
+theorem splitOnChar_append_sep (sep : Char) (s : Str) :
+    splitOnChar sep (s ++ [sep]) = splitOnChar sep s ++ [[]] := by
+  induction s with
+  | nil => simp [splitOnChar]
+  | cons c cs ih =>
+    simp only [List.cons_append, splitOnChar]
+    split
+    · simp [ih]
+    · rw [ih]
+      cases hs : splitOnChar sep cs with
+      | nil => exact absurd hs (splitOnChar_ne_nil sep cs)
+      | cons p ps => simp
+
+theorem splitOnChar_word_sep (sep : Char) (w rest : Str) (h : sep ∉ w) :
+    splitOnChar sep (w ++ sep :: rest) = w :: splitOnChar sep rest := by
+  induction w with
+  | nil => simp [splitOnChar]
+  | cons c cs ih =>
+    simp only [List.mem_cons, not_or] at h
+    have hc : c ≠ sep := fun e => h.1 e.symm
+    simp only [List.cons_append, splitOnChar, hc, if_false, ih h.2]
+
+theorem splitOnChar_parts_no_sep (sep : Char) (s : Str) : ∀ w ∈ splitOnChar sep s, sep ∉ w := by
+  induction s with
+  | nil => intro w hw; simp [splitOnChar] at hw; subst hw; simp
+  | cons c cs ih =>
+    intro w hw
+    simp only [splitOnChar] at hw
+    split at hw
+    · simp only [List.mem_cons] at hw
+      rcases hw with rfl | hw
+      · simp
+      · exact ih w hw
+    · rename_i hc
+      cases hs : splitOnChar sep cs with
+      | nil => exact absurd hs (splitOnChar_ne_nil sep cs)
+      | cons p ps =>
+        rw [hs] at hw ih
+        simp only [List.mem_cons] at hw
+        rcases hw with rfl | hw
+        · have := ih p (by simp)
+          simp only [List.mem_cons, not_or]
+          exact ⟨fun e => hc e.symm, this⟩
+        · exact ih w (by simp [hw])
+
+/-- the words of a dotted path are non-empty and dot-free -/
+theorem words_spec (s : Str) : ∀ w ∈ words s, w ≠ [] ∧ '.' ∉ w := by
+  intro w hw
+  unfold words at hw
+  simp only [List.mem_filter] at hw
+  refine ⟨?_, splitOnChar_parts_no_sep '.' s w hw.1⟩
+  intro e; subst e; simp at hw
+
+/-- `explicit_prefix.split(".")` and `dest.split(".")` have the same non-empty words -/
+theorem words_append_dot (s : Str) : words (s ++ ['.']) = words s := by
+  unfold words
+  rw [splitOnChar_append_sep]
+  simp
+
+/-- every word followed by a dot: `"".join(w + "." for w in ws)` -/
+def sufPref (ws : List Str) : Str := ws.flatMap (fun w => w ++ ['.'])
+
+theorem sufPref_cons (w : Str) (ws : List Str) : sufPref (w :: ws) = w ++ '.' :: sufPref ws := by
+  simp [sufPref]
+
+/-- for a non-empty word list this is `".".join(ws) + "."` -/
+theorem sufPref_eq_join (ws : List Str) (h : ws ≠ []) : sufPref ws = joinWith '.' ws ++ ['.'] := by
+  induction ws with
+  | nil => exact absurd rfl h
+  | cons w ws ih =>
+    cases ws with
+    | nil => simp [sufPref, joinWith]
+    | cons v vs =>
+      rw [sufPref_cons, ih (by simp)]
+      simp [joinWith]
+
+theorem words_sufPref (ws : List Str) (h : ∀ w ∈ ws, w ≠ [] ∧ '.' ∉ w) : words (sufPref ws) = ws := by
+  induction ws with
+  | nil => simp [sufPref, words, splitOnChar]
+  | cons w ws ih =>
+    have hw := h w (by simp)
+    have ih' := ih (fun v hv => h v (by simp [hv]))
+    rw [sufPref_cons]
+    unfold words at ih' ⊢
+    rw [splitOnChar_word_sep '.' w _ hw.2]
+    simp only [List.filter_cons]
+    have : (!w.isEmpty) = true := by
+      cases w with
+      | nil => exact absurd rfl hw.1
+      | cons _ _ => rfl
+    rw [this]
+    simp only [if_true, ih']
+
+/-- **the suffix invariant**: the prefix is empty (`k` = number of words) or consists of the last
+    words of the parent destination path, each followed by a dot:
+    `pref = ".".join(words(parent.dest)[k:]) + "."`. -/
+def SufInv (r : FieldRec) : Prop :=
+  ∃ k, k ≤ (words r.parentDest).length ∧ r.pref = sufPref ((words r.parentDest).drop k)
+
+/-- the readable form of `SufInv` -/
+theorem SufInv.nil_or_join {r : FieldRec} (h : SufInv r) :
+    r.pref = [] ∨ ∃ k, k < (words r.parentDest).length ∧
+      r.pref = joinWith '.' ((words r.parentDest).drop k) ++ ['.'] := by
+  obtain ⟨k, hk, hp⟩ := h
+  rcases Nat.lt_or_ge k (words r.parentDest).length with hlt | hge
+  · right
+    refine ⟨k, hlt, ?_⟩
+    rw [hp, sufPref_eq_join]
+    intro e
+    have := congrArg List.length e
+    simp only [List.length_drop, List.length_nil] at this
+    omega
+  · left
+    rw [hp, List.drop_eq_nil_of_le hge]
+    rfl
+
+theorem SufInv.of_nil {r : FieldRec} (h : r.pref = []) : SufInv r :=
+  ⟨(words r.parentDest).length, Nat.le_refl _, by rw [h, List.drop_eq_nil_of_le (Nat.le_refl _)]; rfl⟩
+
+theorem autoOne_suf (recs recs' : List FieldRec) (i : Nat) (hinv : ∀ r ∈ recs, SufInv r)
+    (h : autoOne recs i = .ok recs') : ∀ r ∈ recs', SufInv r := by
+  rcases autoOne_ok_spec recs recs' i h with ⟨_, he⟩ | ⟨r, w, hr, _, hlt, hw, he⟩
+  · subst he; exact hinv
+  · subst he
+    intro r' hr'
+    rcases mem_setPref recs i _ r' hr' with hmem | ⟨r0, hr0, he⟩
+    · exact hinv r' hmem
+    · rw [hr] at hr0
+      simp only [Option.some.injEq] at hr0
+      subst hr0
+      subst he
+      obtain ⟨k, hk, hp⟩ := hinv r (List.mem_iff_getElem?.mpr ⟨i, hr⟩)
+      rw [words_append_dot] at hlt hw
+      have hused : words r.pref = (words r.parentDest).drop k := by
+        rw [hp]
+        exact words_sufPref _ (fun v hv => words_spec r.parentDest v (List.mem_of_mem_drop hv))
+      rw [hused, List.length_drop] at hlt hw
+      cases k with
+      | zero => omega
+      | succ m =>
+        have hidx : (words r.parentDest).length - 1 - ((words r.parentDest).length - (m + 1)) = m := by
+          omega
+        rw [hidx] at hw
+        have hm : m < (words r.parentDest).length := by omega
+        have hw' : (words r.parentDest)[m] = w := by
+          rw [List.getElem?_eq_getElem hm] at hw
+          simpa using hw
+        refine ⟨m, (by show m ≤ (words r.parentDest).length; omega), ?_⟩
+        show w ++ '.' :: r.pref = sufPref ((words r.parentDest).drop m)
+        rw [List.drop_eq_getElem_cons hm, sufPref_cons, hw', hp]
+
+theorem autoAll_suf (recs recs' : List FieldRec) (is : List Nat) (hinv : ∀ r ∈ recs, SufInv r)
+    (h : autoAll recs is = .ok recs') : ∀ r ∈ recs', SufInv r := by
+  induction is generalizing recs with
+  | nil => simp only [autoAll, Except.ok.injEq] at h; subst h; exact hinv
+  | cons i is ih =>
+    simp only [autoAll] at h
+    cases h1 : autoOne recs i with
+    | error e => rw [h1] at h; cases h
+    | ok r1 => rw [h1] at h; exact ih r1 (autoOne_suf recs r1 i hinv h1) h
+
+theorem fixAuto_suf (recs recs' : List FieldRec) (os : List Nat) (hinv : ∀ r ∈ recs, SufInv r)
+    (h : fixAuto recs os = .ok recs') : ∀ r ∈ recs', SufInv r := by
+  unfold fixAuto at h
+  simp only at h
+  split at h
+  · cases h
+  · exact autoAll_suf _ _ _ hinv h
+
+/-- **C03 (dotted suffix, AUTO).** If every prefix is empty or a dotted suffix of its field's parent
+    destination when resolution starts — in particular when there are no user prefixes — then so
+    is every prefix when AUTO resolution returns, after any number of rounds: each generated flat
+    name `pref ++ name` is a dotted suffix of the field's destination path `parentDest.name`. -/
+theorem c03_suffix_auto (cfg : Cfg) (recs recs' : List FieldRec) (h0 : ∀ r ∈ recs, SufInv r)
+    (h : resolve cfg .auto recs = .ok recs') : ∀ r ∈ recs', SufInv r :=
+  resolveLoop_inv cfg .auto (fun l => ∀ r ∈ l, SufInv r)
+    (fun a _ os b ha _ hf => fixAuto_suf a b os ha (by simpa [fixStep] using hf)) _ recs recs' h0 h
+
+/-- the statement of the property text: without user prefixes, every AUTO prefix is empty or
+    `".".join(last words of parent.dest) + "."` -/
+theorem c03_suffix_auto_noprefix (cfg : Cfg) (recs recs' : List FieldRec)
+    (h0 : ∀ r ∈ recs, r.pref = []) (h : resolve cfg .auto recs = .ok recs') (r : FieldRec)
+    (hr : r ∈ recs') :
+    r.pref = [] ∨ ∃ k, k < (words r.parentDest).length ∧
+      r.pref = joinWith '.' ((words r.parentDest).drop k) ++ ['.'] :=
+  (c03_suffix_auto cfg recs recs' (fun r hr => SufInv.of_nil (h0 r hr)) h r hr).nil_or_join
+
+/-! ### the 50-round limit matters only for forests that need that many rounds -/
+
+def wsum (ws : List Str) : Nat := (ws.map (fun w => w.length + 1)).sum
+
+theorem wsum_cons (w : Str) (ws : List Str) : wsum (w :: ws) = w.length + 1 + wsum ws := by
+  simp [wsum]
+
+theorem length_sufPref (ws : List Str) : (sufPref ws).length = wsum ws := by
+  induction ws with
+  | nil => rfl
+  | cons w ws ih =>
+    rw [sufPref_cons, wsum_cons, List.length_append, List.length_cons, ih]
+    omega
+
+theorem wsum_splitOnChar (sep : Char) (s : Str) : wsum (splitOnChar sep s) = s.length + 1 := by
+  induction s with
+  | nil => rfl
+  | cons c cs ih =>
+    simp only [splitOnChar]
+    split
+    · rw [wsum_cons, ih]; simp only [List.length_nil, List.length_cons]; omega
+    · cases hs : splitOnChar sep cs with
+      | nil => exact absurd hs (splitOnChar_ne_nil sep cs)
+      | cons p ps =>
+        rw [hs, wsum_cons] at ih
+        simp only [wsum_cons, List.length_cons]
+        omega
+
+theorem wsum_filter_le (p : Str → Bool) (l : List Str) : wsum (l.filter p) ≤ wsum l := by
+  induction l with
+  | nil => exact Nat.le_refl _
+  | cons w ws ih =>
+    simp only [List.filter_cons]
+    split
+    · rw [wsum_cons, wsum_cons]; omega
+    · rw [wsum_cons]; omega
+
+theorem wsum_drop_le (k : Nat) (l : List Str) : wsum (l.drop k) ≤ wsum l := by
+  induction l generalizing k with
+  | nil => simp
+  | cons w ws ih =>
+    cases k with
+    | zero => exact Nat.le_refl _
+    | succ n =>
+      simp only [List.drop_succ_cons]
+      rw [wsum_cons]
+      have := ih n
+      omega
+
+/-- under the suffix invariant a prefix is never longer than the parent destination plus its dot -/
+theorem SufInv.pref_le {r : FieldRec} (h : SufInv r) : r.pref.length ≤ r.parentDest.length + 1 := by
+  obtain ⟨k, _, hp⟩ := h
+  rw [hp, length_sufPref]
+  have h1 := wsum_drop_le k (words r.parentDest)
+  have h2 : wsum (words r.parentDest) ≤ wsum (splitOnChar '.' r.parentDest) := wsum_filter_le _ _
+  rw [wsum_splitOnChar] at h2
+  omega
+
+/-- the ceiling of `prefSum`: total length of the explicit prefixes -/
+def destSum (recs : List FieldRec) : Nat := (recs.map (fun r => r.parentDest.length + 1)).sum
+
+theorem prefSum_le_destSum (recs : List FieldRec) (h : ∀ r ∈ recs, SufInv r) :
+    prefSum recs ≤ destSum recs := by
+  unfold prefSum destSum
+  induction recs with
+  | nil => exact Nat.le_refl _
+  | cons a as ih =>
+    have ha := (h a (by simp)).pref_le
+    have := ih (fun r hr => h r (by simp [hr]))
+    simp only [List.map_cons, List.sum_cons]
+    omega
+
+theorem destSum_of_strip (a b : List FieldRec) (h : b.map strip = a.map strip) :
+    destSum b = destSum a := by
+  have key : ∀ l : List FieldRec, destSum l = destSum (l.map strip) := by
+    intro l
+    simp [destSum, List.map_map, Function.comp_def, strip]
+  rw [key b, key a, h]
+
+/-- **C03 (the fuel is not what stops AUTO).** Without user prefixes (more generally under the
+    suffix invariant) the rounds of AUTO resolution are bounded by `destSum - prefSum` — every
+    successful round strictly lengthens prefixes (`c03_auto_round_progress`) and prefixes cannot
+    outgrow the explicit ones (`SufInv.pref_le`) — so any two fuel values above that bound give the
+    same answer: the loop ends by resolving or by a genuine `ConflictResolutionError`, not by the
+    attempt counter. -/
+theorem c03_auto_fuel_irrelevant (cfg : Cfg) (n : Nat) : ∀ (recs : List FieldRec) (m : Nat),
+    (∀ r ∈ recs, SufInv r) → destSum recs - prefSum recs < n → destSum recs - prefSum recs < m →
+    resolveLoop cfg .auto n recs = resolveLoop cfg .auto m recs := by
+  induction n with
+  | zero => intro recs m _ hn _; omega
+  | succ n' ih =>
+    intro recs m h0 hn hm
+    cases m with
+    | zero => omega
+    | succ m' =>
+      simp only [resolveLoop]
+      cases hc : getConflict cfg recs with
+      | none => rfl
+      | some c =>
+        obtain ⟨s, os⟩ := c
+        simp only
+        cases hf : fixStep cfg .auto recs s os with
+        | error e => rfl
+        | ok r2 =>
+          simp only
+          have hprog := c03_auto_round_progress cfg recs r2 s os hc hf
+          have hsuf : ∀ r ∈ r2, SufInv r := fixAuto_suf recs r2 os h0 (by simpa [fixStep] using hf)
+          have hle := prefSum_le_destSum r2 hsuf
+          have hds := destSum_of_strip recs r2 (fixStep_strip cfg .auto recs r2 s os hf)
+          have hn' : n' ≠ 0 := by omega
+          have hm' : m' ≠ 0 := by omega
+          simp only [hn', hm', if_false]
+          exact ih r2 m' hsuf (by omega) (by omega)
+
+/-- in particular the limit of 50 attempts only matters for forests whose explicit prefixes have
+    more than 50 characters left to add (such forests exist: a class of 50 fields registered twice
+    — the harness runs 49 / 50 / 51 fields against the real code) -/
+theorem c03_auto_limit_only_when_needed (cfg : Cfg) (recs : List FieldRec)
+    (h0 : ∀ r ∈ recs, r.pref = []) (hsmall : destSum recs < maxAttempts) (m : Nat)
+    (hm : maxAttempts ≤ m) : resolve cfg .auto recs = resolveLoop cfg .auto m recs := by
+  unfold resolve
+  apply c03_auto_fuel_irrelevant cfg _ recs m (fun r hr => SufInv.of_nil (h0 r hr)) <;> omega
+
+/-! ### EXPLICIT: a prefixed field carries the full path -/
+
+def FullInv (r : FieldRec) : Prop := r.pref = [] ∨ r.pref = r.parentDest ++ ['.']
+
+theorem explicitFold_full (os : List Nat) (recs : List FieldRec) (hinv : ∀ r ∈ recs, FullInv r) :
+    ∀ r ∈ os.foldl (fun acc i => match acc[i]? with
+      | some r => setPref acc i (r.parentDest ++ ['.'])
+      | none => acc) recs, FullInv r := by
+  induction os generalizing recs with
+  | nil => exact hinv
+  | cons i is ih =>
+    simp only [List.foldl_cons]
+    apply ih
+    split
+    · rename_i r0 hr0
+      intro r hr
+      rcases mem_setPref recs i _ r hr with hmem | ⟨r1, hr1, he⟩
+      · exact hinv r hmem
+      · rw [hr0] at hr1
+        simp only [Option.some.injEq] at hr1
+        subst hr1
+        subst he
+        exact .inr rfl
+    · exact hinv
+
+theorem fixExplicit_full (cfg : Cfg) (recs recs' : List FieldRec) (s : Str) (os : List Nat)
+    (hinv : ∀ r ∈ recs, FullInv r) (h : fixExplicit cfg recs s os = .ok recs') :
+    ∀ r ∈ recs', FullInv r := by
+  unfold fixExplicit at h
+  split at h
+  · cases h
+  · simp only at h
+    split at h
+    · split at h
+      · cases h
+      · simp only [Except.ok.injEq] at h; subst h; exact explicitFold_full os recs hinv
+    · simp only [Except.ok.injEq] at h; subst h; exact explicitFold_full os recs hinv
+
+/-- **C03 (full path, EXPLICIT).** Without user prefixes, every prefix after EXPLICIT resolution is
+    empty or the field's whole parent destination followed by a dot: a renamed field is addressed
+    by its full destination path. -/
+theorem c03_full_explicit (cfg : Cfg) (recs recs' : List FieldRec) (h0 : ∀ r ∈ recs, r.pref = [])
+    (h : resolve cfg .explicit recs = .ok recs') :
+    ∀ r ∈ recs', r.pref = [] ∨ r.pref = r.parentDest ++ ['.'] :=
+  resolveLoop_inv cfg .explicit (fun l => ∀ r ∈ l, FullInv r)
+    (fun a s os b ha _ hf => fixExplicit_full cfg a b s os ha (by simpa [fixStep] using hf))
+    _ recs recs' (fun r hr => .inl (h0 r hr)) h
+
+/-! ### a field that clashes with nothing keeps its bare name -/
+
+theorem mem_insertByLen (x y : Str) (l : List Str) : y ∈ insertByLen x l ↔ y = x ∨ y ∈ l := by
+  induction l with
+  | nil => simp [insertByLen]
+  | cons z zs ih =>
+    simp only [insertByLen]
+    split
+    · simp
+    · simp only [List.mem_cons, ih]
+      constructor <;> (intro h; rcases h with h | h | h <;> simp [h])
+
+theorem mem_sortByLen (l : List Str) (y : Str) : y ∈ sortByLen l ↔ y ∈ l := by
+  unfold sortByLen
+  have : ∀ (acc : List Str), y ∈ l.foldl (fun acc x => insertByLen x acc) acc ↔ y ∈ acc ∨ y ∈ l := by
+    induction l with
+    | nil => intro acc; simp
+    | cons x xs ih =>
+      intro acc
+      simp only [List.foldl_cons, ih, mem_insertByLen, List.mem_cons]
+      constructor
+      · rintro ((h | h) | h) <;> simp [h]
+      · rintro (h | h | h) <;> simp [h]
+  simpa using this []
+
+theorem mem_of_mem_dedup (l : List Str) (x : Str) (h : x ∈ dedup l) : x ∈ l := by
+  induction l with
+  | nil => simp [dedup] at h
+  | cons y ys ih =>
+    simp only [dedup, List.mem_cons, List.mem_filter] at h
+    rcases h with h | ⟨h, _⟩
+    · exact List.mem_cons.mpr (.inl h)
+    · exact List.mem_cons_of_mem _ (ih h)
+
+theorem dot_mem_dashify (s : Str) (h : '.' ∈ s) : '.' ∈ dashify s := by
+  unfold dashify
+  simp only [List.mem_map]
+  exact ⟨'.', h, by decide⟩
+
+theorem aliasPair_dotted (pref a : Str) (hp : '.' ∈ pref) : '.' ∈ (aliasPair pref a).2 := by
+  unfold aliasPair
+  split <;> exact List.mem_append_left _ hp
+
+theorem basePairs_dotted (cfg : Cfg) (hflat : cfg.gen = .flat) (fw : FW) (hp : '.' ∈ fw.pref) :
+    ∀ p ∈ basePairs cfg fw, '.' ∈ p.2 := by
+  have hc : ∀ c ∈ candidates cfg fw, '.' ∈ c := by
+    intro c hc
+    simp only [candidates, hflat, List.mem_singleton] at hc
+    subst hc
+    unfold flatCand
+    have : '.' ∈ fw.pref ++ fw.name := List.mem_append_left _ hp
+    simp only
+    split
+    · exact dot_mem_dashify _ this
+    · exact this
+  intro p hp'
+  unfold basePairs at hp'
+  simp only [List.mem_append, List.mem_map] at hp'
+  rcases hp' with (⟨c, hcm, rfl⟩ | h2) | ⟨a, _, rfl⟩
+  · exact hc c hcm
+  · by_cases hl : fw.name.length = 1
+    · simp only [hl, if_true, List.mem_map] at h2
+      obtain ⟨c, hcm, rfl⟩ := h2
+      exact hc c hcm
+    · simp [hl] at h2
+  · exact aliasPair_dotted _ _ hp
+
+/-- under FLAT generation, every option string of a field whose prefix contains a dot contains a dot -/
+theorem opts_dotted (cfg : Cfg) (hflat : cfg.gen = .flat) (r : FieldRec) (hp : '.' ∈ r.pref) :
+    ∀ s ∈ r.opts cfg, '.' ∈ s := by
+  intro s hs
+  have hpos : r.toFW.positional = false := rfl
+  simp only [FieldRec.opts, optionStrings, hpos, Bool.false_eq_true, if_false] at hs
+  have hs' := mem_of_mem_dedup _ _ ((mem_sortByLen _ _).mp hs)
+  simp only [optionList, hpos, Bool.false_eq_true, if_false, List.mem_map, List.mem_append] at hs'
+  obtain ⟨p, hp', rfl⟩ := hs'
+  apply List.mem_append_right
+  rcases hp' with hb | he
+  · exact basePairs_dotted cfg hflat r.toFW hp p hb
+  · unfold extraPairs at he
+    split at he
+    · simp only [List.mem_map, List.mem_filter] at he
+      obtain ⟨q, ⟨hq, _⟩, rfl⟩ := he
+      exact dot_mem_dashify _ (basePairs_dotted cfg hflat r.toFW hp q hq)
+    · cases he
+
+/-- each field is as it was in `a`, or its prefix contains a dot -/
+def StepDot (a b : List FieldRec) : Prop :=
+  ∀ i : Nat, b[i]? = a[i]? ∨ ∃ r : FieldRec, b[i]? = some r ∧ '.' ∈ r.pref
+
+theorem StepDot.refl (a : List FieldRec) : StepDot a a := fun _ => .inl rfl
+
+theorem StepDot.trans {a b c : List FieldRec} (h1 : StepDot a b) (h2 : StepDot b c) : StepDot a c := by
+  intro i
+  rcases h2 i with h | h
+  · rcases h1 i with h' | ⟨r, hr, hd⟩
+    · exact .inl (h.trans h')
+    · exact .inr ⟨r, h.trans hr, hd⟩
+  · exact .inr h
+
+theorem setPref_stepDot (recs : List FieldRec) (i : Nat) (p : Str) (hp : '.' ∈ p) :
+    StepDot recs (setPref recs i p) := by
+  intro j
+  rw [setPref_get]
+  by_cases h : i = j
+  · subst h
+    cases hr : recs[i]? with
+    | none => left; simp
+    | some r => right; exact ⟨{ r with pref := p }, by simp, hp⟩
+  · left; simp [h]
+
+theorem autoOne_stepDot (recs recs' : List FieldRec) (i : Nat) (h : autoOne recs i = .ok recs') :
+    StepDot recs recs' := by
+  rcases autoOne_ok_spec recs recs' i h with ⟨_, he⟩ | ⟨r, w, _, _, _, _, he⟩
+  · subst he; exact StepDot.refl _
+  · subst he; exact setPref_stepDot _ _ _ (by simp)
+
+theorem autoAll_stepDot (recs recs' : List FieldRec) (is : List Nat) (h : autoAll recs is = .ok recs') :
+    StepDot recs recs' := by
+  induction is generalizing recs with
+  | nil => simp only [autoAll, Except.ok.injEq] at h; subst h; exact StepDot.refl _
+  | cons i is ih =>
+    simp only [autoAll] at h
+    cases h1 : autoOne recs i with
+    | error e => rw [h1] at h; cases h
+    | ok r1 => rw [h1] at h; exact (autoOne_stepDot recs r1 i h1).trans (ih r1 h)
+
+theorem fixAuto_stepDot (recs recs' : List FieldRec) (os : List Nat) (h : fixAuto recs os = .ok recs') :
+    StepDot recs recs' := by
+  unfold fixAuto at h
+  simp only at h
+  split at h
+  · cases h
+  · exact autoAll_stepDot _ _ _ h
+
+theorem explicitFold_stepDot (os : List Nat) (recs : List FieldRec) :
+    StepDot recs (os.foldl (fun acc i => match acc[i]? with
+      | some r => setPref acc i (r.parentDest ++ ['.'])
+      | none => acc) recs) := by
+  induction os generalizing recs with
+  | nil => exact StepDot.refl _
+  | cons i is ih =>
+    simp only [List.foldl_cons]
+    refine StepDot.trans ?_ (ih _)
+    split
+    · exact setPref_stepDot _ _ _ (by simp)
+    · exact StepDot.refl _
+
+theorem fixExplicit_stepDot (cfg : Cfg) (recs recs' : List FieldRec) (s : Str) (os : List Nat)
+    (h : fixExplicit cfg recs s os = .ok recs') : StepDot recs recs' := by
+  unfold fixExplicit at h
+  split at h
+  · cases h
+  · simp only at h
+    split at h
+    · split at h
+      · cases h
+      · simp only [Except.ok.injEq] at h; subst h; exact explicitFold_stepDot os recs
+    · simp only [Except.ok.injEq] at h; subst h; exact explicitFold_stepDot os recs
+
+theorem fixStep_stepDot (cfg : Cfg) (mode : CR) (recs recs' : List FieldRec) (s : Str) (os : List Nat)
+    (h : fixStep cfg mode recs s os = .ok recs') : StepDot recs recs' := by
+  cases mode <;> simp only [fixStep] at h
+  · cases h
+  · exact fixExplicit_stepDot cfg recs recs' s os h
+  · cases h
+  · exact fixAuto_stepDot recs recs' os h
+
+/-- **C03 (every rewritten prefix is dotted).** After resolution each field is exactly as it was
+    registered, or its prefix contains a `.` (any mode, any number of rounds). -/
+theorem c03_stepDot (cfg : Cfg) (mode : CR) (recs recs' : List FieldRec)
+    (h : resolve cfg mode recs = .ok recs') : StepDot recs recs' :=
+  resolveLoop_inv cfg mode (StepDot recs)
+    (fun a s os b ha _ hf => ha.trans (fixStep_stepDot cfg mode a b s os hf)) _ recs recs'
+    (StepDot.refl _) h
+
+/-- without user prefixes every final prefix is empty or contains a dot -/
+theorem c03_pref_nil_or_dotted (cfg : Cfg) (mode : CR) (recs recs' : List FieldRec)
+    (h0 : ∀ r ∈ recs, r.pref = []) (h : resolve cfg mode recs = .ok recs') :
+    ∀ r ∈ recs', r.pref = [] ∨ '.' ∈ r.pref := by
+  intro r hr
+  obtain ⟨i, hi⟩ := List.mem_iff_getElem?.mp hr
+  rcases c03_stepDot cfg mode recs recs' h i with he | ⟨r', hr', hd⟩
+  · left
+    rw [hi] at he
+    exact h0 r (List.mem_iff_getElem?.mpr ⟨i, he.symm⟩)
+  · right
+    rw [hi] at hr'
+    simp only [Option.some.injEq] at hr'
+    subst hr'
+    exact hd
+
+theorem exists_ne_of_nodup (l : List Nat) (j : Nat) (hn : l.Nodup) (hl : 1 < l.length) :
+    ∃ i ∈ l, i ≠ j := by
+  match l, hn, hl with
+  | [], _, hl => simp at hl
+  | [_], _, hl => simp at hl
+  | a :: b :: rest, hn, _ =>
+    have hab : a ≠ b := by
+      intro e
+      subst e
+      simp at hn
+    by_cases ha : a = j
+    · exact ⟨b, by simp, fun hb => hab (ha.trans hb.symm)⟩
+    · exact ⟨a, by simp, ha⟩
+
+/-- one round leaves a dot-free, initially unshared field out of the conflict -/
+theorem bare_not_owner (cfg : Cfg) (hflat : cfg.gen = .flat) (recs state : List FieldRec)
+    (j : Nat) (rj : FieldRec) (hdot : ∀ s ∈ rj.opts cfg, '.' ∉ s)
+    (hun : ∀ s ∈ rj.opts cfg, owners cfg recs s = [j])
+    (hsj : state[j]? = some rj) (hsd : StepDot recs state) (s : Str) (os : List Nat)
+    (hc : getConflict cfg state = some (s, os)) : j ∉ os := by
+  obtain ⟨hos, hlen⟩ := getConflict_some_owners cfg state s os hc
+  subst hos
+  intro hj
+  obtain ⟨r, hr, hsr⟩ := mem_owners cfg state j s hj
+  rw [hsj] at hr
+  simp only [Option.some.injEq] at hr
+  subst hr
+  obtain ⟨i, hi, hne⟩ := exists_ne_of_nodup _ j (owners_nodup cfg state s) hlen
+  obtain ⟨ri, hri, hsi⟩ := mem_owners cfg state i s hi
+  rcases hsd i with he | ⟨r', hr', hd⟩
+  · rw [hri] at he
+    have := owner_of_mem_opts cfg recs i ri s he.symm hsi
+    rw [hun s hsr] at this
+    simp only [List.mem_singleton] at this
+    exact hne this
+  · rw [hri] at hr'
+    simp only [Option.some.injEq] at hr'
+    subst hr'
+    exact hdot s hsr (opts_dotted cfg hflat ri hd s hsi)
+
+/-- **C03 (bare name).** Under FLAT generation (the default), in any mode and for any forest: a
+    field whose option strings are dot-free and which — before resolution — is the only owner of
+    each of them is never part of a conflict in any round, so it comes out of resolution exactly as
+    it went in: same prefix, hence the same (bare) option strings. -/
+theorem c03_bare (cfg : Cfg) (hflat : cfg.gen = .flat) (mode : CR) (recs recs' : List FieldRec)
+    (h : resolve cfg mode recs = .ok recs') (j : Nat) (rj : FieldRec) (hj : recs[j]? = some rj)
+    (hdot : ∀ s ∈ rj.opts cfg, '.' ∉ s) (hun : ∀ s ∈ rj.opts cfg, owners cfg recs s = [j]) :
+    recs'[j]? = some rj := by
+  have key := resolveLoop_inv cfg mode (fun l => l[j]? = some rj ∧ StepDot recs l)
+    (fun a s os b ha hc hf => by
+      obtain ⟨haj, had⟩ := ha
+      have hno := bare_not_owner cfg hflat recs a j rj hdot hun haj had s os hc
+      exact ⟨(c03_round_untouched cfg mode a b s os j hno hf).trans haj,
+        had.trans (fixStep_stepDot cfg mode a b s os hf)⟩)
+    _ recs recs' ⟨hj, StepDot.refl _⟩ h
+  exact key.1
+
+/-! ### bool leaves: their negative flags are invisible to the resolver (open finding C03-neg-clash)
+
+  `Model/Conflicts.setup` knows the option strings `FieldWrapper.option_strings` returns. A `bool`
+  leaf registers more: `BooleanOptionalAction.__init__` (custom_actions.py:97-126) appends one
+  `--no<x>` string per positive string when `add_argument` runs, *after* resolution, so
+  `get_conflict` never sees them. The definitions below extend `setup` locally (they are not part
+  of the driver; the harness observes the same behaviour on the real parser). -/
+
+/-- negative option strings derived from the final positive ones (default `negative_prefix="--no"`,
+    no `negative_option`) -/
+def negOpts (cfg : Cfg) (r : FieldRec) : List Str :=
+  (negStrings (r.opts cfg) "--no".toList none r.pref).getD []
+
+/-- every string the `add_argument` call of one field registers -/
+def addedOpts (cfg : Cfg) (r : FieldRec) (isBool : Bool) : List Str :=
+  r.opts cfg ++ (if isBool then negOpts cfg r else [])
+
+/-- the `add_argument` calls in field order (argparse `_check_conflict` with the default
+    `conflict_handler="error"`): `false` = some string of a new action is already registered -/
+def addAll (cfg : Cfg) : List Str → List (FieldRec × Bool) → Bool
+  | _, [] => true
+  | taken, (r, b) :: rest =>
+    if (addedOpts cfg r b).any (fun s => taken.contains s) then false
+    else addAll cfg (taken ++ addedOpts cfg r b) rest
+
+/-- `_preprocessing` for a forest whose i-th leaf is a `bool` iff `bools[i]` -/
+def setupNeg (cfg : Cfg) (mode : CR) (reserved : List Str) (recs : List FieldRec)
+    (bools : List Bool) : SetupOut :=
+  match resolve cfg mode recs with
+  | .err .conflictResolutionError => .conflictResolutionError
+  | .err .assertionError => .assertionError
+  | .ok recs' => if addAll cfg reserved (recs'.zip bools) then .ok recs' else .argumentError
+
+/-- full statement: set-up of a forest with bool leaves succeeds or raises ConflictResolutionError -/
+def NegTotal : Prop :=
+  ∀ (cfg : Cfg) (mode : CR) (recs : List FieldRec) (bools : List Bool), mode ≠ .always_merge →
+    (∃ recs', setupNeg cfg mode [] recs bools = .ok recs') ∨
+      setupNeg cfg mode [] recs bools = .conflictResolutionError
+
+/-- … false today (open finding C03-neg-clash): `class A: x: bool; nox: int` at dest `a` — the
+    negative flag `--nox` of `x` is the option string of `nox`; the resolver sees no conflict and
+    `add_argument` raises `argparse.ArgumentError` (even without the built-in help option). -/
+theorem c03_neg_clash_witness : ¬ NegTotal := by
+  intro h
+  have := h ⟨.underscore, .flat, .default⟩ .auto
+    [{ name := "x".toList, parentDest := "a".toList, level := 1, aliases := [], pref := [] },
+     { name := "nox".toList, parentDest := "a".toList, level := 1, aliases := [], pref := [] }]
+    [true, false] (by decide)
+  have hs : setupNeg ⟨.underscore, .flat, .default⟩ .auto []
+      [{ name := "x".toList, parentDest := "a".toList, level := 1, aliases := [], pref := [] },
+       { name := "nox".toList, parentDest := "a".toList, level := 1, aliases := [], pref := [] }]
+      [true, false] = .argumentError := by decide
+  rw [hs] at this
+  rcases this with ⟨r, hr⟩ | hr <;> cases hr
+
+/-- the named exclusion: no string registered by a field's `add_argument` is already on the parser -/
+def NoAddClash (cfg : Cfg) (mode : CR) (reserved : List Str) (recs : List FieldRec)
+    (bools : List Bool) : Prop :=
+  ∀ recs', resolve cfg mode recs = .ok recs' → addAll cfg reserved (recs'.zip bools) = true
+
+theorem c03_neg_total_partial (cfg : Cfg) (mode : CR) (hm : mode ≠ .always_merge)
+    (reserved : List Str) (recs : List FieldRec) (bools : List Bool)
+    (hfree : NoAddClash cfg mode reserved recs bools) :
+    (∃ recs', setupNeg cfg mode reserved recs bools = .ok recs') ∨
+      setupNeg cfg mode reserved recs bools = .conflictResolutionError := by
+  unfold setupNeg
+  cases hr : resolve cfg mode recs with
+  | ok recs' =>
+    left
+    refine ⟨recs', ?_⟩
+    simp only
+    rw [hfree recs' hr]
+    simp
+  | err e =>
+    cases e with
+    | conflictResolutionError => right; rfl
+    | assertionError => exact absurd hr (c03_total cfg mode hm recs)
+
+/-- the exclusion is satisfiable by a forest with a bool leaf registered twice (its negative flags
+    `--a.nox` / `--b.nox` follow the resolved prefixes) -/
+example : setupNeg ⟨.underscore, .flat, .default⟩ .auto ["-h".toList, "--help".toList]
+    [{ name := "x".toList, parentDest := "a".toList, level := 1, aliases := [], pref := [] },
+     { name := "x".toList, parentDest := "b".toList, level := 1, aliases := [], pref := [] }]
+    [true, true] =
+    .ok [{ name := "x".toList, parentDest := "a".toList, level := 1, aliases := [], pref := "a.".toList },
+         { name := "x".toList, parentDest := "b".toList, level := 1, aliases := [], pref := "b.".toList }] := by
+  decide
+
+example : negOpts ⟨.underscore, .flat, .default⟩
+    { name := "x".toList, parentDest := "a".toList, level := 1, aliases := [], pref := "a.".toList } =
+    ["--a.nox".toList, "--a.nox".toList] := by decide
+
+/-! ### non-vacuity of the theorems above -/
+
+def cfgD : Cfg := ⟨.underscore, .flat, .default⟩
+
+/-- `Top{y: Mid{y: Leaf{v}}}` registered at `x` and at `z`: leaves `x.y.y.v`, `z.y.y.v` -/
+def deep2 : List FieldRec :=
+  [{ name := "v".toList, parentDest := "x.y.y".toList, level := 3, aliases := [], pref := [] },
+   { name := "v".toList, parentDest := "z.y.y".toList, level := 3, aliases := [], pref := [] }]
+
+/-- AUTO needs three rounds here (one word per round): two are not enough … -/
+example : resolveLoop cfgD .auto 3 deep2 = .err .conflictResolutionError := by decide
+/-- … and resolution does succeed, with the full paths as prefixes (so `c03_unique` etc. are not
+    vacuous: a model whose `fixAuto` always failed would not pass this). -/
+example : resolve cfgD .auto deep2 =
+    .ok [{ name := "v".toList, parentDest := "x.y.y".toList, level := 3, aliases := [], pref := "x.y.y.".toList },
+         { name := "v".toList, parentDest := "z.y.y".toList, level := 3, aliases := [], pref := "z.y.y.".toList }] := by
+  decide
+/-- EXPLICIT resolves the same forest in a single round -/
+example : resolveLoop cfgD .explicit 2 deep2 =
+    .ok [{ name := "v".toList, parentDest := "x.y.y".toList, level := 3, aliases := [], pref := "x.y.y.".toList },
+         { name := "v".toList, parentDest := "z.y.y".toList, level := 3, aliases := [], pref := "z.y.y.".toList }] := by
+  decide
+/-- a clash between a field and a deeper one: the least nested keeps its bare name, one round -/
+example : resolveLoop cfgD .auto 2
+    [{ name := "xx".toList, parentDest := "a".toList, level := 1, aliases := [], pref := [] },
+     { name := "xx".toList, parentDest := "a.b".toList, level := 2, aliases := [], pref := [] },
+     { name := "xx".toList, parentDest := "a.c.d".toList, level := 3, aliases := [], pref := [] }] =
+    .ok [{ name := "xx".toList, parentDest := "a".toList, level := 1, aliases := [], pref := [] },
+         { name := "xx".toList, parentDest := "a.b".toList, level := 2, aliases := [], pref := "b.".toList },
+         { name := "xx".toList, parentDest := "a.c.d".toList, level := 3, aliases := [], pref := "d.".toList }] := by
+  decide
+
+/-- hypotheses of `fixAuto_progress` / `autoOne_progress` on a real conflict -/
+example : prefSum deep2 < prefSum
+    [{ name := "v".toList, parentDest := "x.y.y".toList, level := 3, aliases := [], pref := "y.".toList },
+     { name := "v".toList, parentDest := "z.y.y".toList, level := 3, aliases := [], pref := "y.".toList }] :=
+  fixAuto_progress deep2 _ [0, 1] (by decide) (by rfl)
+
+/-- hypotheses of `c03_auto_limit_only_when_needed` -/
+example : destSum deep2 < maxAttempts := by decide
+
+/-- hypotheses of `c03_suffix_auto_noprefix` / `c03_full_explicit` / `c03_pref_nil_or_dotted` -/
+example : ∀ r ∈ deep2, r.pref = [] := by decide
+example : SufInv ⟨"v".toList, "x.y.y".toList, 3, [], "y.y.".toList⟩ := ⟨1, by decide, by decide⟩
+
+/-- `x` at `a`, `x` and `yy` at `b`: `yy` clashes with nothing -/
+def bare3 : List FieldRec :=
+  [{ name := "x".toList, parentDest := "a".toList, level := 1, aliases := [], pref := [] },
+   { name := "x".toList, parentDest := "b".toList, level := 1, aliases := [], pref := [] },
+   { name := "yy".toList, parentDest := "b".toList, level := 1, aliases := ["-q".toList], pref := [] }]
+
+/-- hypotheses of `c03_bare` on a forest that does need resolution -/
+example : ∃ recs', resolve cfgD .auto bare3 = .ok recs' ∧ recs' ≠ bare3 ∧ recs'[2]? = bare3[2]? := by
+  have h : resolve cfgD .auto bare3 =
+      .ok [{ name := "x".toList, parentDest := "a".toList, level := 1, aliases := [], pref := "a.".toList },
+           { name := "x".toList, parentDest := "b".toList, level := 1, aliases := [], pref := "b.".toList },
+           { name := "yy".toList, parentDest := "b".toList, level := 1, aliases := ["-q".toList], pref := [] }] := by
+    decide
+  exact ⟨_, h, by decide, c03_bare cfgD rfl .auto bare3 _ h 2 _ rfl (by decide) (by decide)⟩
+
+/-- hypotheses of `c03_exactly_one` / `c03_owner_eq` -/
+example : owners cfgD
+    [{ name := "x".toList, parentDest := "a".toList, level := 1, aliases := [], pref := "a.".toList },
+     { name := "x".toList, parentDest := "b".toList, level := 1, aliases := [], pref := "b.".toList }]
+    "--b.x".toList = [1] := by decide
+
+/-! a forest with a real clash that AUTO resolves, and one that NONE rejects -/
 example : resolve ⟨.underscore, .flat, .default⟩ .auto
     [{ name := "x".toList, parentDest := "a".toList, level := 1, aliases := [], pref := [] },
      { name := "x".toList, parentDest := "b".toList, level := 1, aliases := [], pref := [] }] =
